@@ -372,6 +372,9 @@ func (a *pwaligner) backTrack_SW() {
 	a.end1 = a.maxi
 	a.end2 = a.maxj
 
+	// the counters describe this alignment only (Alignment() may be called again)
+	a.length, a.nbmatches, a.nbmismatches, a.nbgaps = 0, 0, 0, 0
+
 	i = a.maxi
 	j = a.maxj
 
